@@ -6,6 +6,7 @@ import (
 	"fmt"
 	"github.com/shurcooL/go-goon"
 	"github.com/ugorji/go/codec"
+	"math"
 	"reflect"
 	"sort"
 	"strings"
@@ -774,6 +775,11 @@ func SexpToGoStructs(
 	case *SexpFloat:
 		switch targVa.Elem().Interface().(type) {
 		case int64:
+			// numbers decoded from JSON arrive as floats; a whole one
+			// may fill an integer field, a fraction must not be cut off.
+			if src.Val != math.Trunc(src.Val) {
+				return nil, fmt.Errorf("cannot store float %v in an integer field", src.Val)
+			}
 			targVa.Elem().SetInt(int64(src.Val))
 		case float64:
 			targVa.Elem().SetFloat(float64(src.Val))
@@ -1084,7 +1090,8 @@ func SexpToGoStructs(
 	case *SexpBool:
 		targVa.Elem().Set(reflect.ValueOf(src.Val))
 	default:
-		fmt.Printf("\n error: unknown type: %T in '%#v'\n", src, src)
+		// a value of a kind we cannot store must be reported, not dropped
+		return nil, fmt.Errorf("cannot convert zygo value of type %T to Go: '%s'", src, src.SexpString(nil))
 	}
 	return target, nil
 }
@@ -1195,6 +1202,7 @@ package main
 
 import (
 	"fmt"
+	"math"
 	"reflect"
 )
 
@@ -1227,6 +1235,7 @@ package main
 
 import (
 	"fmt"
+	"math"
 	"reflect"
 )
 
